@@ -1,6 +1,6 @@
 (* C14 - extensions take priority, stay inside their parent, and disturb nothing else.
    Stated for arbitrary trees, arbitrary (pure, total) detector verdicts and arbitrary histories. *)
-From Verif Require Import Base.Bytes Model.Types Model.Tree Proofs.TreeP Proofs.HeapP.
+From Verif Require Import Base.Bytes Model.Types Model.Tree Proofs.TreeP Proofs.HeapP Proofs.LookupP.
 
 (* Extend prepends: the new leaf is the first child of its parent *)
 Theorem C14_extend_prepends :
@@ -27,6 +27,36 @@ Theorem C14_histories :
   forall acc ops, Forall (fun o => acc (snd o) = false) ops -> forall t, walk acc (extend_all ops t) = walk acc t.
 Proof. exact extends_noninterference. Qed.
 Print Assumptions C14_histories.
+
+(* ---- Lookup over the enlarged tree ---- *)
+(* Lookup is the first node in flatten() order that carries the name (as type or alias) *)
+Theorem C14_lookup_is_first :
+  forall names name t, lookup names name t = find (has_name names name) (flatten t).
+Proof. exact lookup_is_first. Qed.
+Print Assumptions C14_lookup_is_first.
+
+(* in that order the extension sits directly behind its parent *)
+Theorem C14_extension_follows_parent :
+  forall p k t, NoDup (flatten t) -> In p (flatten t) ->
+    exists pre post, flatten t = pre ++ p :: post /\ flatten (insert_first p k t) = pre ++ p :: k :: post.
+Proof. exact flatten_insert_at. Qed.
+Print Assumptions C14_extension_follows_parent.
+
+(* an extension name or alias that no older format carries is found, and it is the extension (whose parent is p by
+   C14_extend_prepends) *)
+Theorem C14_lookup_finds_extension :
+  forall names p k name t, NoDup (flatten t) -> In p (flatten t) -> has_name names name k = true ->
+    (forall i, In i (flatten t) -> has_name names name i = false) ->
+    lookup names name (insert_first p k t) = Some k.
+Proof. exact lookup_extension. Qed.
+Print Assumptions C14_lookup_finds_extension.
+
+(* every other name resolves exactly as before the call *)
+Theorem C14_lookup_undisturbed :
+  forall names p k name t, NoDup (flatten t) -> In p (flatten t) -> has_name names name k = false ->
+    lookup names name (insert_first p k t) = lookup names name t.
+Proof. exact lookup_other_names. Qed.
+Print Assumptions C14_lookup_undisturbed.
 
 Example C14_example :
   walk (fun i => Nat.eqb i 2 || Nat.eqb i 9) (insert_first 2 9 (T 0 [T 1 []; T 2 [T 3 []]])) = [0; 2; 9].
